@@ -164,6 +164,10 @@ func runPrefetchCost(id string, parts []string) string {
 		if gb > 0 {
 			dg = fmt.Sprint(g1 - g0)
 		}
+		if f["mode"] != "budget" && h.status != "ok" {
+			// with a huge burst nothing can be refused for want of tokens: no DNS answer at all is a transport matter
+			return "timing=bad why=transport:" + strings.ReplaceAll(h.status, " ", "_")
+		}
 		rs = append(rs, fmt.Sprintf("%s:%s:%s:%s:%d", c19GMark(h), dc, dp, dg, up))
 		env.TakeQueries(key)
 	}
